@@ -111,15 +111,25 @@ class CUnit:
                 pass
         # locals renamed by an edit are renamed back to the vocabulary the rules use where structure alone decides it (see
         # localnames.py): the text is rewritten (identifier for identifier, so lines keep their numbers) and parsed again
-        if not getattr(self, '_renormalized', False):
-            from .localnames import renormalize_c
-            new_text = renormalize_c(self.text, tu, rel)
+        stage = getattr(self, '_renorm_stage', 0)
+        if stage < 2:
+            from .localnames import renormalize_c, unflip_c
+            new_text = (renormalize_c if stage == 0 else unflip_c)(self.text, tu, rel)
+            self._renorm_stage = stage + 1
             if new_text is not None and new_text != self.text:
-                self._renormalized = True
                 repo2 = Repo(repo.root, overlay={**repo.overlay, rel: new_text})
                 self.__init__(repo2, rel)            # type: ignore[misc]
                 self.repo = repo
                 return
+            if stage == 0:
+                # nothing to rename: the second stage (comparisons turned round) on the same parse
+                new_text = unflip_c(self.text, tu, rel)
+                self._renorm_stage = 2
+                if new_text is not None and new_text != self.text:
+                    repo2 = Repo(repo.root, overlay={**repo.overlay, rel: new_text})
+                    self.__init__(repo2, rel)            # type: ignore[misc]
+                    self.repo = repo
+                    return
         self.tu = tu
         self.funcs: Dict[str, Dict[str, Any]] = {}
         self.records: Dict[str, Dict[str, Any]] = {}
